@@ -839,7 +839,11 @@ is_destructible(CPPVisibility min_vis) const {
       return false;
     }
 
-    return true;
+    if ((destructor->_storage_class & CPPInstance::SC_defaulted) == 0) {
+      return true;
+    }
+    // An explicitly defaulted destructor is deleted under the same conditions
+    // as an implicit one, so check those below.
   }
 
   // Make sure all base classes are destructible.
